@@ -47,7 +47,7 @@ from prompt_toolkit.history import DummyHistory, FileHistory, History, InMemoryH
 
 ID = "C13"
 DRIVER = "drv_c13"
-PROPS = ["Ptk.Props.C13", "Ptk.Props.C13Fixed", "Ptk.Props.C13FixedMulti", "Ptk.Props.C13Mem", "Ptk.Props.C13Foreign"]
+PROPS = ["Ptk.Props.C13", "Ptk.Props.C13Fixed", "Ptk.Props.C13FixedMulti", "Ptk.Props.C13Mem", "Ptk.Props.C13Foreign", "Ptk.Props.C13Wrap"]
 ANCHORS = ["src/prompt_toolkit/history.py"]
 # the functions of /repo whose bodies the Lean models follow line by line and the correspondence exercises
 # (nested helpers - `in_executor`, `add`, `write` - are part of their parents)
@@ -313,6 +313,28 @@ def safe_fresh_load(path):
         return "err:" + type(e).__name__
 
 
+def wrapped_threaded_load(inst):
+    """[x async for x in ThreadedHistory(inst).load()] with real threads, nothing concurrent"""
+    th = ThreadedHistory(inst)
+
+    async def go():
+        out = []
+
+        async def inner():
+            async for x in th.load():
+                out.append(x)
+
+        await asyncio.wait_for(inner(), timeout=30)
+        return out
+
+    try:
+        return enc_strs(asyncio.run(go()))
+    except (asyncio.TimeoutError, TimeoutError):
+        return "err:timeout"
+    except Exception as e:
+        return "err:" + type(e).__name__
+
+
 def read_bytes(path):
     if not os.path.exists(path):
         return b""
@@ -353,6 +375,14 @@ def file_impl(case):
                 out.append(enc_strs(collect_load(inst(op[1]))))
             elif k == "get":
                 out.append(enc_strs(inst(op[1]).get_strings()))
+            elif k == "tapp":
+                # append through a ThreadedHistory wrapper around instance op[1] (wrapper not loaded)
+                clock.ts = op[2]
+                ThreadedHistory(inst(op[1])).append_string(op[3])
+                out.append(enc_bytes(read_bytes(path)))
+            elif k == "tload":
+                # background-thread load through a wrapper around the (possibly already loaded) instance
+                out.append(wrapped_threaded_load(inst(op[1])))
             elif k == "fresh":
                 out.append(safe_fresh_load(path))
             elif k == "truncall":
@@ -390,6 +420,10 @@ def file_model_lines(case):
             out.append(f"app {op[1]} {enc_str(op[2])} {enc_str(op[3])}")
         elif k in ("load", "get"):
             out.append(f"{k} {op[1]}")
+        elif k == "tapp":
+            out.append(f"tapp {op[1]} {enc_str(op[2])} {enc_str(op[3])}")
+        elif k == "tload":
+            out.append(f"tload {op[1]}")
         elif k in ("fresh", "truncall"):
             out.append(k)
         elif k == "cutb":
@@ -2235,8 +2269,32 @@ def file_oracle(case):
             with open(path, "ab") as f:
                 f.write(bytes(op[1]))
             segs.append(("foreign", a, a + len(op[1]), None))
-        elif k in ("load", "get"):
+        elif k == "load":
+            if op[1] not in insts:
+                insts[op[1]] = FileHistory(path)
+            try:
+                collect_load(insts[op[1]])
+            except Exception:
+                pass  # judged by the fresh loads
+        elif k == "get":
             pass
+        elif k == "tapp":
+            i = op[1]
+            if i not in insts:
+                insts[i] = FileHistory(path)
+            a = os.path.getsize(path) if os.path.exists(path) else 0
+            ThreadedHistory(insts[i]).append_string(op[3])
+            b = os.path.getsize(path)
+            segs.append(("ok", a, b, op[3]))
+        elif k == "tload":
+            i = op[1]
+            if i not in insts:
+                insts[i] = FileHistory(path)
+            inline = safe_fresh_load(path)
+            tgot = wrapped_threaded_load(insts[i])
+            if tgot != inline:
+                bad("ThreadedHistory.load", "differs from inline load (wrapped instance with a past, no concurrent append)",
+                    f"threaded {tgot!r} inline by a fresh instance {inline!r}")
     return v
 
 
@@ -2414,8 +2472,12 @@ def rand_file_case(rng):
             ops.append(["load", rng.randrange(4)])
         elif r < 0.75:
             ops.append(["get", rng.randrange(4)])
-        elif r < 0.85:
+        elif r < 0.80:
             ops.append(["fresh"])
+        elif r < 0.83:
+            ops.append(["tapp", rng.randrange(4), rng.choice(TS_POOL), rand_string(rng)])
+        elif r < 0.86:
+            ops.append(["tload", rng.randrange(4)])
         elif r < 0.95:
             ops.append(["cutb", rng.choice([0, 1, 1, 2, 3, 4, 5, 8, 13, 30, 31, 32, 33, 60])])
         else:
@@ -2429,6 +2491,8 @@ def rand_file_case(rng):
         if rng.random() < 0.5:
             ops.append(["load", i])
             ops.append(["get", i])
+        elif rng.random() < 0.3:
+            ops.append(["tload", i])
     return {"kind": "file", "ops": ops}
 
 
@@ -3043,6 +3107,20 @@ def exhaustive_cases(tier, rng):
     for a in pair:
         for b in pair:
             yield entries_case([a, b], insts=[0, 1])
+    # --- ThreadedHistory around an instance with a past (loaded inline before / written to through
+    #     the wrapper or by another instance): small scope over the order of the four operations
+    for pre_load in (False, True):
+        for later in (["tapp", 0, "U", "b\nc"], ["app", 1, "U", "b"], ["app", 0, "U", "+x"]):
+            for again in (False, True):
+                ops = [["app", 0, "T", "a"]]
+                if pre_load:
+                    ops.append(["load", 0])
+                ops.append(list(later))
+                ops.append(["tload", 0])
+                if again:
+                    ops += [["tapp", 1, "V", "\u2028z"], ["tload", 1], ["tload", 0]]
+                ops += [["fresh"], ["load", 0], ["get", 0]]
+                yield {"kind": "file", "ops": ops}
     if not quick:
         one = list(strings_upto(ALPHA, 1))
         for a in one:
